@@ -151,6 +151,8 @@ def _list_without_one(name, fn):
         var, src = elem_of(g.target, g.iter)
         if var and isinstance(src, ast.Attribute) and src.attr == 'bonded_atoms' \
                 and _is_other_than(g.ifs[0], var):
+            _list_without_one.kind = 'position' if isinstance(g.target, ast.Tuple) and \
+                norm(val.elt) == norm(g.target.elts[0]) else ('element' if norm(val.elt) == var else 'other')
             return src
         return None
     if isinstance(val, ast.List) and not val.elts:
@@ -174,6 +176,9 @@ def _list_without_one(name, fn):
             return None
         facts = facts_at(apps[0], inner)
         if len(facts) == 1 and facts[0][1] and _is_other_than(facts[0][0], var):
+            arg = norm(apps[0].args[0]) if apps[0].args else ''
+            _list_without_one.kind = 'position' if isinstance(inner.target, ast.Tuple) and \
+                arg == norm(inner.target.elts[0]) else ('element' if arg == var else 'other')
             return src
     return None
 
@@ -403,6 +408,13 @@ def run(ctx):
                         if (it == 'range(len(%s))' % e and tg == iv) or \
                                 (it.startswith('enumerate(%s' % e) and tg.split(',')[0].strip('(') == iv):
                             why = 'index bound by %s' % norm(lp.iter)
+                    if why is None and isinstance(node.slice, ast.Subscript) \
+                            and isinstance(node.slice.value, ast.Name):
+                        # S[L[k]] where L holds positions of S collected by enumerate(S)
+                        src_ = _list_without_one(node.slice.value.id, fn)
+                        if src_ is not None and _list_without_one.kind == 'position' \
+                                and canon(fn).text(src_) == canon(fn).text(node.value):
+                            why = 'the index is a position collected by enumerate() over this very list'
                     if why is None:
                         # index computed by .index() on the same data under a count guard
                         for s in walk_no_nested(fn):
